@@ -131,6 +131,45 @@ func one(k kase) *fail {
 		if w := fmt.Sprintf("ran=%v", want); w != got {
 			return &fail{k, w, got}
 		}
+	case "sharedtags":
+		// two interpreters created from ONE Options.BuildTags slice with spare capacity; each adds its own tag through a
+		// yaegi:tags comment; afterwards each must select files by its own tags only
+		tags := make([]string, 1, 8)
+		tags[0] = "base"
+		mk := func(own string, out *bytes.Buffer) *interp.Interpreter {
+			file := func(hd, id string) *fstest.MapFile {
+				return &fstest.MapFile{Data: []byte(hd + "package main\n\nimport . \"verif/engine/twin/h\"\n\nfunc init() { Show(\"" + id + "\") }\n")}
+			}
+			mfs := fstest.MapFS{
+				"gp/src/t/t.go":  &fstest.MapFile{Data: []byte("// yaegi:tags " + own + "\n\npackage main\n\nfunc main() {}\n")},
+				"gp/src/u/m.go":  &fstest.MapFile{Data: []byte("package main\n\nfunc main() {}\n")},
+				"gp/src/u/aa.go": file("//go:build aa\n\n", "aa"),
+				"gp/src/u/bb.go": file("//go:build bb\n\n", "bb"),
+				"gp/src/u/ba.go": file("//go:build base\n\n", "base"),
+			}
+			steps := 0
+			i := interp.New(interp.Options{BuildTags: tags, GoPath: "./gp", SourcecodeFilesystem: mfs, Stdout: out, Stderr: &bytes.Buffer{}})
+			i.Use(h.Exports(out, &steps))
+			return i
+		}
+		var oa, ob bytes.Buffer
+		ia, ib := mk("aa", &oa), mk("bb", &ob)
+		var errs []string
+		for _, st := range []struct {
+			i *interp.Interpreter
+			p string
+		}{{ia, "./gp/src/t"}, {ib, "./gp/src/t"}, {ia, "./gp/src/u"}, {ib, "./gp/src/u"}} {
+			if _, err := st.i.EvalPath(st.p); err != nil {
+				errs = append(errs, strings.SplitN(err.Error(), "\n", 2)[0])
+			}
+		}
+		fa, fb := strings.Fields(oa.String()), strings.Fields(ob.String())
+		sort.Strings(fa)
+		sort.Strings(fb)
+		got := fmt.Sprintf("A=%v B=%v errors=%v", fa, fb, errs)
+		if want := "A=[aa base] B=[base bb] errors=[]"; got != want {
+			return &fail{k, want, got}
+		}
 	case "e2e":
 		var buf bytes.Buffer
 		mfs := fstest.MapFS{}
@@ -387,6 +426,7 @@ func main() {
 	ks = append(ks, headerCases(r.Thorough())...)
 	nHeaders := len(ks) - nNames
 	ks = append(ks, e2eCases(ctx.GOOS, ctx.GOARCH)...)
+	ks = append(ks, kase{Kind: "sharedtags", Class: "two interpreters created from one BuildTags slice, each adding a yaegi:tags tag"})
 	for _, hd := range []string{"", "//go:build " + ctx.GOOS + "\n\n", "//go:build !" + ctx.GOOS + "\n\n", "//go:build ignore\n\n", "// +build windows,!" + ctx.GOOS + "\n\n", "// +build " + ctx.GOOS + "\n\n", "//go:build a\n\n", "//go:build go1.99\n\n"} {
 		for _, mode := range []string{"eval", "compile", "evalpath"} {
 			for _, tags := range [][]string{nil, {"a"}} {
@@ -424,7 +464,7 @@ func main() {
 	r.Set("headers_without_model_answer", res.Counts["model_rejects_header"])
 	r.Set("distinct_nontrivial", len(res.Sets["name_answers"])+len(res.Sets["header_answers"])+len(res.Sets["e2e_answers"]))
 	r.Set("exhaustive", true)
-	r.Set("rule", "names: every word of go/build's OS and architecture lists + unix + unknown words in the last one and two _ positions (and with a third leading word), with and without _test, _/. prefixes, loading with and without tests; headers: all boolean expressions of depth <= 2 over literals of 15 atoms in //go:build and // +build syntax (or / and / two lines), both syntaxes together, yaegi:tags, 8 placements before and 6 after the package clause, x tag sets over {a,b}; e2e: packages on a MapFS loaded by EvalPath; entry: the constrained source as the entry itself through Eval, Compile + Execute and EvalPath on the file (8 headers x 2 tag sets). distinct_nontrivial = distinct model answers observed per dimension (true/false, file sets)")
+	r.Set("rule", "names: every word of go/build's OS and architecture lists + unix + unknown words in the last one and two _ positions (and with a third leading word), with and without _test, _/. prefixes, loading with and without tests; headers: all boolean expressions of depth <= 2 over literals of 15 atoms in //go:build and // +build syntax (or / and / two lines), both syntaxes together, yaegi:tags, 8 placements before and 6 after the package clause, x tag sets over {a,b}; e2e: packages on a MapFS loaded by EvalPath; entry: the constrained source as the entry itself through Eval, Compile + Execute and EvalPath on the file (8 headers x 2 tag sets); two interpreters created from one Options.BuildTags slice, each adding its own yaegi:tags tag. distinct_nontrivial = distinct model answers observed per dimension (true/false, file sets)")
 	r.Assumptions = []string{"go/build.Context.MatchFile on a copy of the interpreter's own build context is the reference", "headers that go/build itself reports as malformed have no model answer and are skipped (counted)"}
 	for _, i := range []int{3, nNames + 5, len(ks) - 1} {
 		r.Sample(ks[i])
